@@ -455,3 +455,96 @@ Print Assumptions C06_prefix_ts_vminmaxnorm.
 Print Assumptions C06_window_only_ts_vminmaxnorm.
 Print Assumptions C06_window_only_ts_vregx_resid.
 Print Assumptions C06_window_only_ts_vzscore.
+
+(* ---- (B') pre-window independence of the rolling sum IN BINARY64, quantitatively (Proofs/RoundSum.v) -------
+   (7) says the accumulator families carry nothing over from the history in exact arithmetic.  For the rolling sum
+   `ts_vsum` at the EXECUTION instance (Coq's primitive binary64 `float`, NaN = null; add -> emit -> remove; only the
+   m_s1 / m_n fields of the state matter) the history enters through rounding only, and by this much:
+     nops w xs i   additions and subtractions performed up to the emit of step i
+                   (= valid elements in positions 0..i  +  valid elements in positions 0..i-w;   <= 2i+1)
+     habs w xs i   the magnitude they moved (sum of |x| over the same two ranges;  <= 2 * sum_{k<=i} |x_k|)
+     accumulators w xs i   every value the sum field has gone through so far
+     u64 = 2^-53,  gam u n = (1+u)^n - 1,  f2r / ffin / rvals64 / fx : see Props/C11.v (R1)-(R4).
+   Premise (executable): the emitted value is finite — then so was every accumulator value and every operand.   *)
+From Tevec Require Import Spec.Stats Proofs.RoundSum.
+
+(* (13) after ANY history the emitted sum is within ((1+u)^m - 1) * H of the exact sum of the window *)
+Theorem C06_ts_vsum_binary64_error :
+  forall (w : nat) (mp : option nat) (body : bool) (xs : list PrimFloat.float) (i : nat) (o : PrimFloat.float),
+    1 <= w -> nth_error (ts_out (ts_vsum_f (NA := NumF64) (DT := IsNoneF64) w mp) body w xs) i = Some o ->
+    ffin o = true ->
+    (Rabs (f2r o - sumR (rvals64 (win w i xs))) <= gam u64 (nops w xs i) * habs w xs i)%R.
+Proof. exact ts_vsum_binary64_error. Qed.
+
+(* (14) the drift is linear in the number of operations: explicit constants in i alone *)
+Theorem C06_ts_vsum_binary64_drift :
+  forall (w : nat) (mp : option nat) (body : bool) (xs : list PrimFloat.float) (i : nat) (o : PrimFloat.float),
+    1 <= w -> nth_error (ts_out (ts_vsum_f (NA := NumF64) (DT := IsNoneF64) w mp) body w xs) i = Some o ->
+    ffin o = true ->
+    (Rabs (f2r o - sumR (rvals64 (win w i xs)))
+     <= INR (2 * i + 1) * u64 * (1 + u64) ^ (2 * i + 1) * (2 * sumabs (rvals64 (firstn (S i) xs))))%R.
+Proof. exact ts_vsum_binary64_drift. Qed.
+
+(* (15) running form: (2i+1) * u * M, M any bound on the accumulator values the run has gone through *)
+Theorem C06_ts_vsum_binary64_drift_running :
+  forall (w : nat) (mp : option nat) (body : bool) (xs : list PrimFloat.float) (i : nat) (o : PrimFloat.float) (M : R),
+    1 <= w -> nth_error (ts_out (ts_vsum_f (NA := NumF64) (DT := IsNoneF64) w mp) body w xs) i = Some o ->
+    ffin o = true -> (0 <= M)%R ->
+    Forall (fun a => (Rabs (f2r a) <= M)%R) (accumulators w xs i) ->
+    (Rabs (f2r o - sumR (rvals64 (win w i xs))) <= INR (2 * i + 1) * u64 * M)%R.
+Proof. exact ts_vsum_binary64_drift_running. Qed.
+
+(* (16) history independence up to rounding: two series (any lengths, any histories, either body) whose windows at
+   positions i and j coincide give sums that differ by at most the two rounding bounds *)
+Theorem C06_history_independence_up_to_rounding_ts_vsum :
+  forall (w : nat) (mp : option nat) (body1 body2 : bool) (xs ys : list PrimFloat.float) (i j : nat)
+         (o1 o2 : PrimFloat.float),
+    1 <= w -> win w i xs = win w j ys ->
+    nth_error (ts_out (ts_vsum_f (NA := NumF64) (DT := IsNoneF64) w mp) body1 w xs) i = Some o1 ->
+    nth_error (ts_out (ts_vsum_f (NA := NumF64) (DT := IsNoneF64) w mp) body2 w ys) j = Some o2 ->
+    ffin o1 = true -> ffin o2 = true ->
+    (Rabs (f2r o1 - f2r o2) <= gam u64 (nops w xs i) * habs w xs i + gam u64 (nops w ys j) * habs w ys j)%R.
+Proof. exact ts_vsum_history_independence_up_to_rounding. Qed.
+
+Theorem C06_ts_vsum_operation_count :
+  forall (w : nat) (xs : list PrimFloat.float) (i : nat),
+    1 <= w -> nops w xs i <= 2 * i + 1 /\ (habs w xs i <= 2 * sumabs (rvals64 (firstn (S i) xs)))%R.
+Proof. intros w xs i Hw. split; [apply nops_le, Hw|apply habs_le]. Qed.
+
+(* (17) exactness: on a series whose valid elements are finite multiples of 2^e (executable test grid_check) with
+   2 * sum |x| < 2^(e+53), no addition or subtraction ever rounds: the binary64 run IS the exact run, for every
+   window, min_periods and both bodies.  The generated inputs are k/4, |k| <= 400: this is why the correspondence run
+   sees bit-identical rolling sums, and on such data the history does not enter at all. *)
+Theorem C06_ts_vsum_exact_on_grid :
+  forall (e : Z) (w : nat) (mp : option nat) (body : bool) (xs : list PrimFloat.float),
+    1 <= w -> (-1074 <= e <= 971)%Z -> forallb (grid_check e) (fvals xs) = true ->
+    (2 * sumabs (rvals64 xs) < pow2 (e + 53))%R ->
+    map fx (ts_out (ts_vsum_f (NA := NumF64) (DT := IsNoneF64) w mp) body w xs)
+    = ts_out (ts_vsum_f (NA := NumXR) (DT := IsNoneXR) w mp) body w (map fx xs).
+Proof.
+  intros e w mp body xs Hw He HG Hb.
+  apply (ts_vsum_f64_exact_on_grid e w mp body xs Hw He); [apply grid_check_all, HG|exact Hb].
+Qed.
+
+(* non-vacuity: two different histories (one of them 1e16: the sum absorbs and loses the small terms), the same last
+   window [0.1; 0.2]; both outputs are finite, the windows coincide, and the outputs DO differ in binary64 *)
+Example C06_example_rounding_premises :
+  exists o1 o2,
+    nth_error (ts_out (ts_vsum_f (NA := NumF64) (DT := IsNoneF64) 2 (Some 1)) true 2 [1e16; 0.1; 0.2]%float) 2 = Some o1 /\
+    nth_error (ts_out (ts_vsum_f (NA := NumF64) (DT := IsNoneF64) 2 (Some 1)) false 2 [nan; 0.1; 0.2]%float) 2 = Some o2 /\
+    ffin o1 = true /\ ffin o2 = true /\
+    win 2 2 [1e16; 0.1; 0.2]%float = win 2 2 [nan; 0.1; 0.2]%float /\
+    PrimFloat.eqb o1 o2 = false.
+Proof. do 2 eexists. repeat split; vm_compute; reflexivity. Qed.
+Example C06_example_grid_premises :
+  forallb (grid_check (-2)) (fvals [1.25; nan; -0.75; 100]%float) = true /\
+  ts_out (ts_vsum_f (NA := NumF64) (DT := IsNoneF64) 2 None) true 2 [1.25; nan; -0.75; 100]%float
+  = [1.25; 1.25; -0.75; 99.25]%float.
+Proof. split; vm_compute; reflexivity. Qed.
+
+Print Assumptions C06_ts_vsum_binary64_error.
+Print Assumptions C06_ts_vsum_binary64_drift.
+Print Assumptions C06_ts_vsum_binary64_drift_running.
+Print Assumptions C06_history_independence_up_to_rounding_ts_vsum.
+Print Assumptions C06_ts_vsum_operation_count.
+Print Assumptions C06_ts_vsum_exact_on_grid.
